@@ -307,6 +307,8 @@ func c15AllBytes(r *core.Run) {
 }
 
 func runC15(r *core.Run) {
+	defer racePass(r, "race-C15", "Has, ForEach and MarshalJSON on one shared trie")
+
 	c15AllBytes(r)
 	type cfg struct {
 		sigma string
